@@ -105,3 +105,18 @@ func init() {
 		NotCovered:  "that the rebased string designates the same target; that a later full expansion gives the same outcome as a direct one",
 	})
 }
+
+func init() {
+	registerProperty(&Property{
+		ID:    "C17",
+		Rules: []string{"no-goroutines", "lockset", "no-call-under-lock", "globals", "ctx-private"},
+		Explanation: "The package starts no goroutine (checked), so all concurrency is the caller's and the package's obligations are about what two calls can share. lockset (go/cfg must-hold): every access to a field of a struct that carries a sync.(RW)Mutex happens with the write lock (writes) or at least the read lock (reads) held on every path, and no return is reachable with a lock held; one audited exception is tied to the who-calls fact that makes it sound. no-call-under-lock: nothing but map operations happens in a locked region; sync.Once is used only through Do with a function that does not re-enter. globals + ctx-private: two calls on independent data share no writable memory other than a caller-supplied cache.",
+		NotCovered:  "that every call returns what it would have returned alone (value statement); thread-safety of swag.NameProvider and other dependencies; caller-implemented caches",
+	})
+	registerProperty(&Property{
+		ID:    "C16",
+		Rules: []string{"globals", "ctx-private", "opts-immutable", "root-readonly"},
+		Explanation: "Inventory of every package-level variable with who-may-write obligations: the package cache is stored only by the function run under sync.Once and every load of it is the receiver of ShallowClone (so neither a caller nor the expander can Set into it or hand it out), ShallowClone returns a fresh map, the default loader is read only where a per-call resolver context is built, the logger is written only during package initialisation, everything else is never written (globals). Resolver contexts and loaders are created per call, built by one constructor, never returned by the API, never held by a global and never handed to a cache (ctx-private). The caller's options are cloned before any internal change (opts-immutable) and cached documents are never written through (root-readonly).",
+		NotCovered:  "documents being loaded afresh as an observed fact (follows from these rules plus C18's, not separately observed)",
+	})
+}
